@@ -36,7 +36,7 @@ theorem fault_reported_once (s : St) (w : Nat) (h512 : (s.wk w).idx < 512) :
     (removeNext s w).faultedLog = s.faultedLog ++ [(s.wk w).idx] ∧
     (removeNext s w).avail (s.wk w).idx = false ∧
     (removeNext s w).handles.length = s.handles.length - 1 := by
-  simp [removeNext, setAvail, h512, upd]
+  simp [removeNext, setAvail, h512, upd, swapRemove_length]
 
 /-- the server starts a replacement only for a reported fault, one per report, with the same index;
 the new handle reaches the accept thread as a `Worker` interest -/
@@ -63,7 +63,7 @@ theorem replacement_rejoins (cfg : Cfg) (fuel : Nat) (s : St) (w : Nat) (q : Lis
       handleWaker cfg fuel (acceptAll cfg
         { yieldPt cfg s with wq := q, avail := upd (yieldPt cfg s).avail ((yieldPt cfg s).wk w).idx true,
                              handles := (yieldPt cfg s).handles ++ [w] }) := by
-  simp [handleWaker, hnf, hq, hp, setAvail, h512]
+  simp [handleWaker, hnf, hq, hp, addWorker, setAvail, h512]
 
 /-- with a single worker, service resumes once the replacement is up: the accept loop that runs when
 the replacement joins dispatches to it (its bit is set and it is the only handle) -/
